@@ -96,6 +96,8 @@ class Stmt:
         self.error = None
         self.offset = None
         self.indexed_by = None  # INDEXED BY <name> (False: NOT INDEXED)
+        self.trigger_when = None  # CREATE TRIGGER ... WHEN <expr>
+        self.trigger_of = None    # CREATE TRIGGER ... UPDATE OF <cols>
 
     @property
     def is_write(self):
@@ -575,11 +577,19 @@ class Parser:
                 st.name = self.ident()
                 when = self.eat_kw('AFTER', 'BEFORE') or 'BEFORE'
                 ev = self.expect_kw('INSERT', 'UPDATE', 'DELETE')
+                if ev == 'UPDATE' and self.peek()[0] == 'id' and str(self.peek()[1]).upper() == 'OF':
+                    self.next()
+                    st.trigger_of = [self.ident()]
+                    while self.eat_op(','):
+                        st.trigger_of.append(self.ident())
                 self.expect_kw('ON')
                 st.table = self.ident()
                 if self.eat_kw('FOR'):
                     self.expect_kw('EACH')
                     self.expect_kw('ROW')
+                if self.peek()[0] == 'id' and str(self.peek()[1]).upper() == 'WHEN':
+                    self.next()
+                    st.trigger_when = self.expr()
                 st.trigger_event = (when, ev)
                 self.expect_kw('BEGIN')
                 while not self.at_kw('END'):
